@@ -9,6 +9,29 @@ Texts are lists of code points; `isScalar` = "is a Unicode scalar value" (Python
 namespace C06
 open C06.Gen
 
+/-! ## the tables regenerated from the source (re-checked by kernel evaluation after every change) -/
+
+/-- every row of the four quote maps is either the byte itself (ASCII, raw-legal at that position per
+    RFC 3986, not `%`) or `%` + two upper-case hex digits that `_HEX_CHAR_MAP` sends back to the byte,
+    and contains no character that the parser treats as a delimiter at that position -/
+theorem quote_tables_ok (c : Comp) : mapOK c = true := mapOK_all c
+
+/-- `_HEX_CHAR_MAP` is exactly "two hexadecimal digits, either case -> their value" -/
+theorem hex_table_exact (a b : Nat) : hexPair? a b = hexSpec a b := hexPair_eq_spec a b
+
+/-- every delimiter of the parser at a position (`_URL_RE` classes, `@`, `:`, `/`, `&`, `;`, `=`, `+`) is in
+    the set that minimal quoting escapes there, and those sets are ASCII with escape rows -/
+theorem delimiter_tables_ok (c : Comp) :
+    (stopSet c).all (fun x => c.delims.contains x) = true ∧ delimsOK c = true :=
+  ⟨stop_sub_delims c, delimsOK_all c⟩
+
+/-- the character classes of `_URL_RE` relate to the separators as the scanner lemmas need -/
+theorem url_re_classes_ok :
+    notIn schemeStop 58 = false ∧
+    notIn authStop 47 = false ∧ notIn authStop 63 = false ∧ notIn authStop 35 = false ∧
+    notIn pathStop 63 = false ∧ notIn pathStop 35 = false ∧ notIn pathStop 47 = true ∧
+    notIn queryStop 35 = false ∧ notIn queryStop 38 = true ∧ notIn queryStop 61 = true := stops_ok
+
 /-! ## quoting: legality and inverse -/
 
 /-- `unquote(quote_X_part(s, full_quote=True)) == NFC(s)` for the four quote functions, every
@@ -54,6 +77,11 @@ theorem unquote_to_bytes_wellformed (s : Text) : unqBytes s = unqSpec s := unqBy
 /-- on ASCII text `unquote` is: percent-decode, then read as UTF-8 (invalid sequences replaced) -/
 theorem unquote_wellformed (s : Text) (hs : ∀ c ∈ s, c < 128) : unquote s = decodeR (unqSpec s) := by
   rw [unquote_ascii s hs, unqBytes_eq_spec]
+
+/-- a non-ASCII character is left alone and separates what is decoded on either side (together with
+    `unquote_wellformed` this describes `unquote` on every text) -/
+theorem unquote_nonascii (a b : Text) (c : Nat) (hc : 128 ≤ c) :
+    unquote (a ++ c :: b) = unquote a ++ c :: unquote b := unquote_split a b c hc
 
 /-- text without `%` is left alone -/
 theorem unquote_identity (s : Text) (hp : 37 ∉ s) : unquote s = s := unquote_no_pct s hp
